@@ -17,6 +17,8 @@ _cache = {}
 # units whose obligations have committed replay scripts (`<script> <compiler-binary>`: exit 1 = the defect shows on the real code)
 COMPILER_REPLAYS = {
     "u_importname": ["replay/c02/deep_import.sh"],
+    "u_tylower": ["replay/c11/pair_callback.sh"],
+    "u_tygate": ["replay/c16/trait_sig_imports.sh"],
     "u_anf": ["replay/c09/anf_order.sh"],
     "u_diagord": ["replay/c13/missing_methods/run.sh", "replay/c13/unknown_fields/run.sh"],
     "u_occurs": ["replay/c04/occurs/run.sh"],
